@@ -1,6 +1,6 @@
 (* Correspondence runner for the wire codec (C11, C12, byte half of C05). *)
 From Coq Require Export List NArith ZArith Bool String Uint63.
-From Mac Require Export Model.Caveat Model.Msgpack Model.Codec Corr.Transport.
+From Mac Require Export Model.Caveat Model.Msgpack Model.Codec Generated.Facts Corr.Transport.
 Export ListNotations.
 
 Inductive mcase :=
@@ -9,7 +9,9 @@ Inductive mcase :=
 | KEncTok (kid rnd : option bytes) (proof : bool) (ver : N) (loc : string) (cs : list cav) (tail : option bytes) (ok : bool) (out : bytes)
 | KFrames (input : bytes) (ok : bool) (frames : list (N * bytes))
 | KSkip (input : bytes) (ok : bool) (consumed : N)
-| KJson (c : cav) (ok : bool) (out : bytes).                (* msgpack of the caveat after a JSON round trip *)
+| KJson (c : cav) (ok : bool) (out : bytes)                 (* msgpack of the caveat after a JSON round trip *)
+| KJTypeRead (s : string) (t : N)                           (* caveat type obtained from the JSON "type" field s *)
+| KJTypePrint (t : N) (out : string).                       (* the "type" field written for a caveat of type t *)
 
 Definition b2z (b : bool) : Z := if b then 1%Z else 0%Z.
 Definition zs (l : list N) : list Z := Z.of_nat (List.length l) :: map Z.of_N l.
@@ -27,6 +29,8 @@ Definition model_out (k : mcase) : list Z :=
                    | Some rest => [1%Z; Z.of_nat (List.length i - List.length rest)]
                    | None => [0%Z] end
   | KJson c _ _ => match json_rt c with Some c' => zo (enc_one c') | None => [0%Z] end
+  | KJTypeRead s _ => [Z.of_N (type_from_json all_reg f_cav_unregistered s)]
+  | KJTypePrint t _ => zs (str_bytes (type_to_json all_reg f_cav_min_user_defined t))
   end.
 
 Definition obs_out (k : mcase) : list Z :=
@@ -34,5 +38,7 @@ Definition obs_out (k : mcase) : list Z :=
   | KEnc _ ok o | KEncSet _ ok o | KEncTok _ _ _ _ _ _ _ ok o | KJson _ ok o => if ok then 1%Z :: zs o else [0%Z]
   | KFrames _ ok fs => if ok then 1%Z :: Z.of_nat (List.length fs) :: flat_map (fun f => Z.of_N (fst f) :: zs (snd f)) fs else [0%Z]
   | KSkip _ ok n => if ok then [1%Z; Z.of_N n] else [0%Z]
+  | KJTypeRead _ t => [Z.of_N t]
+  | KJTypePrint _ o => zs (str_bytes o)
   end.
 Definition run (l : list mcase) := mismatches model_out obs_out l.
